@@ -4,6 +4,7 @@
 (c) TLC-enumerated request sequences (HttpIngest.tla) x encodings x seeded corruptions through the real ingestion router."""
 import os
 import vlib
+import rcvstage
 import c02
 
 LEVEL = "model_checking"
@@ -73,6 +74,7 @@ def robust_part(ctx, fails, named):
 
 def run(ctx):
     fails, named = [], {}
+    rcvstage.run(ctx, clauses=("Alive", "Lost"))   # zero-length and other datagrams through the real receiver: the process goes on
     # R1: the uint32 arithmetic of lexEventBody on a scaled word (SliceSafe); the pre-fix arithmetic must be refuted
     ctx.tlc_check("EventBodyWrap", "EventBodyWrap.fixed.cfg", label="SliceSafe, 64-bit comparison")
     r = ctx.tlc_check("EventBodyWrap", "EventBodyWrap.wrap.cfg", label="SliceSafe, wrapping sum (must fail)", must_pass=False)
